@@ -12,6 +12,7 @@ class NeedFork(Exception): pass            # raised in no-fork (merge side) mode
 class StopReached(Exception): pass         # merge side reached the join block
 class NeedChoice(Exception):
     def __init__(s, n): s.n = n
+class Probe(Exception): pass             # probe run reached its first real fork
 
 class Obj:
     __slots__ = ('size', 'cells', 'name', 'owner', 'ro', 'bytes', 'kind')
@@ -32,7 +33,7 @@ class State:
     def __init__(s):
         s.frames = []; s.objs = {}; s.pc = []; s.next_obj = 0; s.exc = None; s.caught = []
         s.draws = []; s.observes = []; s.sid = next(_sid); s.model = None; s.steps = 0
-        s.nchoice = 0; s.notes = []; s.tasks = None; s.decisions = 0; s.clock = None; s.loopcnt = {}
+        s.nchoice = 0; s.notes = []; s.tasks = None; s.decisions = 0; s.clock = None; s.loopcnt = {}; s.fidx = 0
     def clone(s):
         n = State()
         s.sid = next(_sid)      # objects owned so far become shared by both states (copy on write)
@@ -41,7 +42,7 @@ class State:
         n.draws = list(s.draws); n.observes = list(s.observes); n.model = s.model; n.steps = s.steps
         n.nchoice = s.nchoice; n.notes = list(s.notes); n.decisions = s.decisions; n.clock = s.clock
         n.tasks = None if s.tasks is None else {k: (set(a), set(b)) for k, (a, b) in s.tasks.items()}
-        n.loopcnt = dict(s.loopcnt)
+        n.loopcnt = dict(s.loopcnt); n.fidx = s.fidx
         return n
 
 class Engine:
@@ -57,6 +58,7 @@ class Engine:
         s.gobjs = {}            # materialised global objects (templates, owner 0)
         s.nofork = 0
         s.fresh = 0
+        s.forced = ()
         s.stats = dict(paths=0, paths_done=0, paths_assume=0, paths_bound=0, forks=0, merges=0, merge_fail=0, instrs=0,
                        solver_calls=0, solver_time=0.0, sat=0, unsat=0, unknown=0, interval_decided=0, model_hits=0)
         s.vc = {}               # kind -> dict(proved=, violated=, unknown=, trivial=)
@@ -582,6 +584,18 @@ class Engine:
             tf = True if tf is None else tf; ff = True if ff is None else ff
         if tf and ff:
             if s.nofork: raise NeedFork()
+            if s.cfg.get('probe'): raise Probe()
+            if st.fidx < len(s.forced):
+                # forced decision prefix (work splitting across processes): follow one side only
+                d = s.forced[st.fidx]; st.fidx += 1
+                if d:
+                    if mt is not None: st.model = mt
+                    s.add_pc(st, cond)
+                else:
+                    if mf is not None: st.model = mf
+                    elif s.model_says(st, cond) is not False: st.model = None
+                    s.add_pc(st, z3.Not(cond))
+                return bool(d)
             s.stats['forks'] += 1
             other = st.clone()
             other.decisions += 1; st.decisions += 1
@@ -952,9 +966,9 @@ class Engine:
         s.vc = snap[0]; del s.violations[snap[1]:]; s.viol_keys = snap[2]; s.covers = snap[3]; s.bound_hits = snap[4]; del s.unknown_vcs[snap[5]:]; del s.smt_dump[snap[6]:]
 
     # ================================================================ top level
-    def run(s, entry, choices=()):
+    def run(s, entry, choices=(), forced=()):
         """explore every path of `entry` under the given choice prefix.  Raises NeedChoice if the prefix is too short."""
-        s.choices = list(choices)
+        s.choices = list(choices); s.forced = tuple(forced)
         s.pending = []; s.stops = []
         f = s.mod.funcs.get(entry)
         if f is None: raise EngineError('no function ' + entry)
@@ -973,9 +987,13 @@ class Engine:
             try:
                 s.exec(st)
             except PathDone:
+                if st.fidx < len(s.forced) and any(s.forced[st.fidx:]):
+                    s.stats['dup_paths'] = s.stats.get('dup_paths', 0) + 1; continue   # counted by the canonical sibling job
                 s.stats['paths'] += 1; s.stats['paths_done'] += 1
                 s.path_finished(st)
             except PathEnd as e:
+                if st.fidx < len(s.forced) and any(s.forced[st.fidx:]):
+                    s.stats['dup_paths'] = s.stats.get('dup_paths', 0) + 1; continue
                 s.stats['paths'] += 1
                 if e.why == 'bound': s.stats['paths_bound'] += 1
                 else: s.stats['paths_assume'] += 1
